@@ -70,8 +70,8 @@ theorem lemma_runOps_enc (sn : Sniff) (ops : List Op) :
   | nil => intro w; rfl
   | cons o os ih => intro w; simp only [runOps]; rw [ih, lemma_step_enc]
 
-theorem lemma_finalCW_enc (sn : Sniff) (cfg : Cfg) (enc : Bytes) (ops : List Op) :
-    (finalCW sn cfg enc ops).1.enc = enc := by
+theorem lemma_finalCW_enc (sn : Sniff) (cfg : Cfg) (enc : Bytes) (h0 : Hdrs) (ops : List Op) :
+    (finalCW sn cfg enc h0 ops).1.enc = enc := by
   unfold finalCW
   simp only
   split
@@ -218,8 +218,8 @@ theorem lemma_copy_panicked (sn : Sniff) (cs : List Bytes) :
           · rw [ih]; exact lemma_write_panicked sn b c
 
 /-- the bare writer does not panic on a program whose status codes are acceptable -/
-theorem lemma_plain_no_panic (sn : Sniff) (ops : List Op) (hv : ∀ o ∈ ops, OpValid o) :
-    (runPlain sn ops).1.panicked = false := by
+theorem lemma_plain_no_panic (sn : Sniff) (h0 : Hdrs) (ops : List Op) (hv : ∀ o ∈ ops, OpValid o) :
+    (runPlain sn h0 ops).1.panicked = false := by
   unfold runPlain
   simp only
   rw [show ∀ b : Base, (b.finish sn).panicked = b.panicked from lemma_finish_panicked sn]
@@ -241,6 +241,6 @@ theorem lemma_plain_no_panic (sn : Sniff) (ops : List Op) (hv : ∀ o ∈ ops, O
       | flush => simp only [plainStep]; rw [lemma_flush_panicked]; exact h
       | copy cs => simp only [plainStep]; rw [lemma_copy_panicked]; exact h
       | panic => exact h
-  exact this ops {} hv rfl
+  exact this ops { live := h0 } hv rfl
 
 end Rivaas.C15
